@@ -147,7 +147,7 @@ pub fn oracle(cfg: &Cfg, run: &Run) -> Vec<(String, String)> {
 pub fn main(tier: &str, seed: u64, outdir: &str) {
     let mut cases = Cases::new();
     let mut rep = Report::new("C16");
-    let n = if tier == "thorough" { 600 } else { 120 };
+    let n = if tier == "thorough" { 6000 } else { 120 };
     for case in 0..n {
         let mut r = Sm::new(seed, "C16", case);
         let preset = (case % 6) as u8;
